@@ -35,13 +35,17 @@ structure Hist (tr : List (Ev κ)) (o : OState κ) : Prop where
   rm     : ∀ (f : Nat) (fl : OFlight κ), o.flights f = some fl → fl.removed = true → Ev.rm fl.key f ∈ tr
   start  : ∀ (c : Nat) (ocl : OCaller κ), o.callers[c]? = some ocl → ∃ b, Ev.start c b ocl.entries ∈ tr
   credit : ∀ k, prepCount k tr + o.credit k = rmCount k tr + 1
+  canc   : ∀ c, o.cancelled c = true → Ev.cancel c ∈ tr
+  await  : ∀ (c : Nat) (ocl : OCaller κ) (a : XAns), o.callers[c]? = some ocl → ocl.pc = .awaiting a → ∃ ids, Ev.exec c ids a ∈ tr
 
-theorem hist_init : Hist ([] : List (Ev κ)) (Obs.init : OState κ) := by
-  refine ⟨fun f => rfl, ?_, ?_, ?_, ?_, fun k => rfl⟩
-  · intro c ocl h; simp [Obs.init] at h
-  · intro f fl r h; simp [Obs.init] at h
-  · intro f fl h; simp [Obs.init] at h
-  · intro c ocl h; simp [Obs.init] at h
+theorem hist_init (b : Bool) : Hist ([] : List (Ev κ)) (Obs.initB b : OState κ) := by
+  refine ⟨fun f => rfl, ?_, ?_, ?_, ?_, fun k => rfl, ?_, ?_⟩
+  · intro c ocl h; simp [Obs.initB] at h
+  · intro f fl r h; simp [Obs.initB] at h
+  · intro f fl h; simp [Obs.initB] at h
+  · intro c ocl h; simp [Obs.initB] at h
+  · intro c h; simp [Obs.initB] at h
+  · intro c ocl a h; simp [Obs.initB] at h
 
 theorem mem_snoc_of_mem {α : Type} {l : List α} {a b : α} (h : a ∈ l) : a ∈ l ++ [b] :=
   List.mem_append_left _ h
@@ -71,10 +75,18 @@ theorem getElem?_set_cases {α : Type} (l : List α) (i j : Nat) (a y : α) (h :
 /-- changing only the pc of one caller -/
 theorem hist_setPc {tr : List (Ev κ)} {o : OState κ} (e : Ev κ) (c : Nat) (cl : OCaller κ) (pc : OPC) (hH : Hist tr o)
     (hc : o.callers[c]? = some cl) (hsc : scanStep (scan tr) e = scan tr)
-    (hp : ∀ k, prepCount k (tr ++ [e]) = prepCount k tr) (hr : ∀ k, rmCount k (tr ++ [e]) = rmCount k tr) :
+    (hp : ∀ k, prepCount k (tr ++ [e]) = prepCount k tr) (hr : ∀ k, rmCount k (tr ++ [e]) = rmCount k tr)
+    (hpc : ∀ a, pc ≠ .awaiting a) :
     Hist (tr ++ [e]) (setPc o c cl pc) := by
   have hs : scan (tr ++ [e]) = scan tr := by rw [scan_snoc, hsc]
-  refine ⟨?_, ?_, ?_, ?_, ?_, ?_⟩
+  refine ⟨?_, ?_, ?_, ?_, ?_, ?_, fun c' h => mem_snoc_of_mem (hH.canc c' h), ?_⟩
+  rotate_left 6
+  · intro c' ocl a h hpa
+    unfold setPc at h
+    rcases getElem?_set_cases _ _ _ _ _ h with ⟨h1, h2⟩ | ⟨_, h2⟩
+    · subst h2; exact absurd hpa (hpc a)
+    · obtain ⟨ids, hi⟩ := hH.await c' ocl a h2 hpa
+      exact ⟨ids, mem_snoc_of_mem hi⟩
   · intro f; rw [hs]; exact hH.rem f
   · intro c' ocl h
     rw [hs]
@@ -96,13 +108,29 @@ theorem hist_setPc {tr : List (Ev κ)} {o : OState κ} (e : Ev κ) (c : Nat) (cl
 
 theorem hist_step {tr : List (Ev κ)} {o o' : OState κ} {e : Ev κ} (hH : Hist tr o) (h : Obs.step o e = some o') :
     Hist (tr ++ [e]) o' := by
+  have hcanc : ∀ c, o.cancelled c = true → Ev.cancel c ∈ tr ++ [e] := fun c h => mem_snoc_of_mem (hH.canc c h)
+  have hawait : ∀ (c : Nat) (ocl : OCaller κ) (a : XAns), o.callers[c]? = some ocl → ocl.pc = .awaiting a →
+      ∃ ids, Ev.exec c ids a ∈ tr ++ [e] := fun c ocl a h1 h2 => by
+    obtain ⟨ids, hi⟩ := hH.await c ocl a h1 h2
+    exact ⟨ids, mem_snoc_of_mem hi⟩
   cases e with
   | start c b es =>
     simp only [Obs.step] at h
     by_cases hc : c = o.callers.length ∧ es ≠ []
     · rw [if_pos hc] at h; injection h with h; subst h
       obtain ⟨hc1, _⟩ := hc
-      refine ⟨?_, ?_, ?_, ?_, ?_, ?_⟩
+      refine ⟨?_, ?_, ?_, ?_, ?_, ?_, hcanc, ?_⟩
+      rotate_left 6
+      · intro c' ocl a hx hpa
+        simp only [] at hx
+        by_cases hlt : c' < o.callers.length
+        · rw [List.getElem?_append_left hlt] at hx
+          exact hawait c' ocl a hx hpa
+        · have hge : o.callers.length ≤ c' := Nat.le_of_not_lt hlt
+          rw [List.getElem?_append_right hge] at hx
+          cases hi : c' - o.callers.length with
+          | zero => rw [hi] at hx; simp at hx; subst hx; cases hpa
+          | succ n => rw [hi] at hx; simp at hx
       · intro f; rw [scan_snoc]; exact hH.rem f
       · intro c' ocl hx
         rw [scan_snoc]
@@ -144,7 +172,7 @@ theorem hist_step {tr : List (Ev κ)} {o o' : OState κ} {e : Ev κ} (hH : Hist 
     · rw [if_neg hc] at h; cases h
   | prep f k r =>
     simp only [Obs.step] at h
-    by_cases hc : 0 < o.credit k ∧ o.callers.any (fun cl => cl.pc.live && hasKey cl.entries k) = true
+    by_cases hc : 0 < o.credit k ∧ o.callers.any (fun cl => (cl.pc.live || cl.pc.gaveUp) && hasKey cl.entries k) = true
     · rw [if_pos hc] at h
       have hcr := hH.credit k
       have hcredit : ∀ k', prepCount k' (tr ++ [Ev.prep f k r]) + (if k' = k then o.credit k - 1 else o.credit k') =
@@ -159,7 +187,7 @@ theorem hist_step {tr : List (Ev κ)} {o o' : OState κ} {e : Ev κ} (hH : Hist 
       cases hf : o.flights f with
       | none =>
         simp only [hf] at h; injection h with h; subst h
-        refine ⟨?_, ?_, ?_, ?_, ?_, hcredit⟩
+        refine ⟨?_, ?_, ?_, ?_, ?_, hcredit, hcanc, hawait⟩
         · intro g
           rw [scan_snoc]; simp only [scanStep]
           rw [← hH.rem g]
@@ -189,7 +217,7 @@ theorem hist_step {tr : List (Ev κ)} {o o' : OState κ} {e : Ev κ} (hH : Hist 
         simp only [hf] at h
         by_cases hk : fl0.key = k ∧ fl0.ans = none
         · rw [if_pos hk] at h; injection h with h; subst h
-          refine ⟨?_, ?_, ?_, ?_, ?_, hcredit⟩
+          refine ⟨?_, ?_, ?_, ?_, ?_, hcredit, hcanc, hawait⟩
           · intro g
             rw [scan_snoc]; simp only [scanStep]
             rw [← hH.rem g]
@@ -220,6 +248,9 @@ theorem hist_step {tr : List (Ev κ)} {o o' : OState κ} {e : Ev κ} (hH : Hist 
     · rw [if_neg hc] at h; cases h
   | rm k f =>
     simp only [Obs.step] at h
+    by_cases hj : o.strict = true ∧ justified o k f = false
+    · rw [if_pos hj] at h; cases h
+    rw [if_neg hj] at h
     have hcredit : ∀ k', prepCount k' (tr ++ [Ev.rm k f]) + (if k' = k then o.credit k + 1 else o.credit k') =
         rmCount k' (tr ++ [Ev.rm k f]) + 1 := by
       intro k'
@@ -232,7 +263,7 @@ theorem hist_step {tr : List (Ev κ)} {o o' : OState κ} {e : Ev κ} (hH : Hist 
     cases hf : o.flights f with
     | none =>
       simp only [hf] at h; injection h with h; subst h
-      refine ⟨?_, ?_, ?_, ?_, ?_, hcredit⟩
+      refine ⟨?_, ?_, ?_, ?_, ?_, hcredit, hcanc, hawait⟩
       · intro g
         rw [scan_snoc]; simp only [scanStep]
         rw [← hH.rem g]
@@ -260,7 +291,7 @@ theorem hist_step {tr : List (Ev κ)} {o o' : OState κ} {e : Ev κ} (hH : Hist 
       simp only [hf] at h
       by_cases hk : fl0.key = k ∧ fl0.removed = false
       · rw [if_pos hk] at h; injection h with h; subst h
-        refine ⟨?_, ?_, ?_, ?_, ?_, hcredit⟩
+        refine ⟨?_, ?_, ?_, ?_, ?_, hcredit, hcanc, hawait⟩
         · intro g
           rw [scan_snoc]; simp only [scanStep]
           rw [← hH.rem g]
@@ -292,9 +323,19 @@ theorem hist_step {tr : List (Ev κ)} {o o' : OState κ} {e : Ev κ} (hH : Hist 
     | none => simp [hc] at h
     | some cl =>
       simp only [hc] at h
-      by_cases hk : cl.pc.live = true ∧ okEntries o cl.banned cl.entries ids = true
-      · rw [if_pos hk] at h; injection h with h; subst h
-        refine ⟨?_, ?_, ?_, ?_, ?_, ?_⟩
+      -- both accepting branches replace the record of c by one with the same entries and `banned := removedNow o`
+      have key : ∀ pc, (∀ a', pc = .awaiting a' → a' = a) →
+          Hist (tr ++ [Ev.exec c ids a]) { o with callers := o.callers.set c { cl with pc := pc, banned := removedNow o } } := by
+        intro pc hpca
+        refine ⟨?_, ?_, ?_, ?_, ?_, ?_, hcanc, ?_⟩
+        rotate_left 6
+        · intro c' ocl a' hx hpa
+          simp only [] at hx
+          rcases getElem?_set_cases _ _ _ _ _ hx with ⟨h1, h2⟩ | ⟨_, h2⟩
+          · subst h1; subst h2
+            have := hpca a' hpa; subst this
+            exact ⟨ids, by simp⟩
+          · exact hawait c' ocl a' h2 hpa
         · intro f; rw [scan_snoc]; exact hH.rem f
         · intro c' ocl hx
           rw [scan_snoc]; simp only [scanStep]
@@ -317,25 +358,32 @@ theorem hist_step {tr : List (Ev κ)} {o o' : OState κ} {e : Ev κ} (hH : Hist 
           · obtain ⟨b, hb⟩ := hH.start c' ocl h2
             exact ⟨b, mem_snoc_of_mem hb⟩
         · intro k; rw [prepCount_snoc, rmCount_snoc]; exact hH.credit k
-      · rw [if_neg hk] at h; cases h
+      by_cases hk : cl.pc.live = true ∧ okEntries o cl.banned cl.entries ids = true
+      · rw [if_pos hk] at h; injection h with h; subst h
+        exact key _ (fun a' h' => by injection h' with h'; exact h'.symm)
+      · rw [if_neg hk] at h
+        by_cases hk2 : cl.pc = .abandoned true ∧ okEntries o cl.banned cl.entries ids = true
+        · rw [if_pos hk2] at h; injection h with h; subst h
+          exact key _ (fun a' h' => by cases h')
+        · rw [if_neg hk2] at h; cases h
   | ret c out =>
     simp only [Obs.step] at h
     cases hc : o.callers[c]? with
     | none => simp [hc] at h
     | some cl =>
       simp only [hc] at h
-      have key : ∀ pc, Hist (tr ++ [Ev.ret c out]) (setPc o c cl pc) := fun pc =>
-        hist_setPc _ c cl pc hH hc rfl (fun k => by rw [prepCount_snoc]; rfl) (fun k => by rw [rmCount_snoc]; rfl)
+      have key : ∀ pc, (∀ a, pc ≠ .awaiting a) → Hist (tr ++ [Ev.ret c out]) (setPc o c cl pc) := fun pc hpc =>
+        hist_setPc _ c cl pc hH hc rfl (fun k => by rw [prepCount_snoc]; rfl) (fun k => by rw [rmCount_snoc]; rfl) hpc
       cases out with
       | ok =>
         simp only [] at h
         by_cases hp : cl.pc = .awaiting .ok
-        · rw [if_pos hp] at h; injection h with h; subst h; exact key _
+        · rw [if_pos hp] at h; injection h with h; subst h; exact key _ (fun a h' => by cases h')
         · rw [if_neg hp] at h; cases h
       | execErr =>
         simp only [] at h
         by_cases hp : cl.pc = .awaiting .err
-        · rw [if_pos hp] at h; injection h with h; subst h; exact key _
+        · rw [if_pos hp] at h; injection h with h; subst h; exact key _ (fun a h' => by cases h')
         · rw [if_neg hp] at h; cases h
       | prepErr f =>
         simp only [] at h
@@ -346,16 +394,40 @@ theorem hist_step {tr : List (Ev κ)} {o o' : OState κ} {e : Ev κ} (hH : Hist 
           | some fl =>
             simp only [hf] at h
             by_cases hq : hasKey cl.entries fl.key = true ∧ fl.ans = some none ∧ fl.removed = true
-            · rw [if_pos hq] at h; injection h with h; subst h; exact key _
+            · rw [if_pos hq] at h; injection h with h; subst h; exact key _ (fun a h' => by cases h')
             · rw [if_neg hq] at h; cases h
         · rw [if_neg hp] at h; cases h
       | countErr =>
         simp only [] at h
         by_cases hp : cl.pc.live = true ∧ countMismatch o cl = true
-        · rw [if_pos hp] at h; injection h with h; subst h; exact key _
+        · rw [if_pos hp] at h; injection h with h; subst h; exact key _ (fun a h' => by cases h')
+        · rw [if_neg hp] at h; cases h
+      | ctxErr =>
+        simp only [] at h
+        by_cases hp : o.cancelled c = true ∧ cl.pc.running = true
+        · rw [if_pos hp] at h; injection h with h; subst h; exact key _ (fun a h' => by cases h')
         · rw [if_neg hp] at h; cases h
   | crash => simp [Obs.step] at h
   | hang c => simp [Obs.step] at h
+  | cancel c =>
+    simp only [Obs.step] at h
+    by_cases hc : c < o.callers.length
+    · rw [if_pos hc] at h; injection h with h; subst h
+      refine ⟨?_, ?_, ?_, ?_, ?_, ?_, ?_, hawait⟩
+      · intro f; rw [scan_snoc]; exact hH.rem f
+      · intro c' ocl hx; rw [scan_snoc]; exact hH.ban c' ocl hx
+      · intro f fl r h1 h2; exact mem_snoc_of_mem (hH.prep f fl r h1 h2)
+      · intro f fl h1 h2; exact mem_snoc_of_mem (hH.rm f fl h1 h2)
+      · intro c' ocl hx
+        obtain ⟨b, hb⟩ := hH.start c' ocl hx
+        exact ⟨b, mem_snoc_of_mem hb⟩
+      · intro k; rw [prepCount_snoc, rmCount_snoc]; exact hH.credit k
+      · intro c' hc'
+        simp only [Bool.or_eq_true, decide_eq_true_eq] at hc'
+        rcases hc' with hc' | hc'
+        · subst hc'; simp
+        · exact mem_snoc_of_mem (hH.canc c' hc')
+    · rw [if_neg hc] at h; cases h
 
 theorem hist_run : ∀ (evs : List (Ev κ)) (tr : List (Ev κ)) (o o' : OState κ), Hist tr o → Obs.run o evs = some o' →
     Hist (tr ++ evs) o'
@@ -442,6 +514,7 @@ theorem scanStep_keeps (sc : Scan) (e : Ev κ) (c f : Nat) (h1 : sc.rem f = true
   | ret _ _ => exact ⟨h1, h2⟩
   | crash => exact ⟨h1, h2⟩
   | hang _ => exact ⟨h1, h2⟩
+  | cancel _ => exact ⟨h1, h2⟩
 
 theorem foldl_keeps (c f : Nat) : ∀ (evs : List (Ev κ)) (sc : Scan), sc.rem f = true → sc.ban c f = true →
     (evs.foldl scanStep sc).ban c f = true
@@ -461,6 +534,7 @@ theorem scanStep_rem (sc : Scan) (e : Ev κ) (f : Nat) (h1 : sc.rem f = true) : 
   | ret _ _ => exact h1
   | crash => exact h1
   | hang _ => exact h1
+  | cancel _ => exact h1
 
 theorem foldl_rem_of_mem (f : Nat) (k : κ) : ∀ (evs : List (Ev κ)) (sc : Scan), (sc.rem f = true ∨ Ev.rm k f ∈ evs) →
     (evs.foldl scanStep sc).rem f = true
@@ -491,11 +565,249 @@ theorem removedBefore_of_rm_before_start (p1 p2 : List (Ev κ)) (c f : Nat) (k :
   · rw [scan_snoc]; exact scanStep_rem _ _ _ h1
   · rw [scan_snoc]; simp [scanStep, h1]
 
+/-! ### the specification never changes its mode -/
+
+theorem obs_step_strict {o o' : OState κ} {e : Ev κ} (h : Obs.step o e = some o') : o'.strict = o.strict := by
+  cases e with
+  | start c b es =>
+    simp only [Obs.step] at h
+    split at h
+    · injection h with h; subst h; rfl
+    · cases h
+  | prep f k r =>
+    simp only [Obs.step] at h
+    split at h
+    · split at h
+      · injection h with h; subst h; rfl
+      · split at h
+        · injection h with h; subst h; rfl
+        · cases h
+    · cases h
+  | rm k f =>
+    simp only [Obs.step] at h
+    split at h
+    · cases h
+    · split at h
+      · injection h with h; subst h; rfl
+      · split at h
+        · injection h with h; subst h; rfl
+        · cases h
+  | exec c ids a =>
+    simp only [Obs.step] at h
+    split at h
+    · cases h
+    · split at h
+      · injection h with h; subst h; rfl
+      · split at h
+        · injection h with h; subst h; rfl
+        · cases h
+  | ret c out =>
+    simp only [Obs.step] at h
+    split at h
+    · cases h
+    · cases out <;> simp only [] at h
+      · split at h
+        · injection h with h; subst h; rfl
+        · cases h
+      · split at h
+        · injection h with h; subst h; rfl
+        · cases h
+      · split at h
+        · split at h
+          · split at h
+            · injection h with h; subst h; rfl
+            · cases h
+          · cases h
+        · cases h
+      · split at h
+        · injection h with h; subst h; rfl
+        · cases h
+      · split at h
+        · injection h with h; subst h; rfl
+        · cases h
+  | crash => simp [Obs.step] at h
+  | hang _ => simp [Obs.step] at h
+  | cancel c =>
+    simp only [Obs.step] at h
+    split at h
+    · injection h with h; subst h; rfl
+    · cases h
+
+theorem obs_run_strict : ∀ (evs : List (Ev κ)) (o o' : OState κ), Obs.run o evs = some o' → o'.strict = o.strict
+  | [], o, o', h => by simp only [Obs.run] at h; injection h with h; subst h; rfl
+  | e :: evs, o, o', h => by
+    simp only [Obs.run] at h
+    cases hs : Obs.step o e with
+    | none => simp [hs] at h
+    | some o1 =>
+      simp only [hs] at h
+      rw [obs_run_strict evs o1 o' h, obs_step_strict hs]
+
 /-! ### a call that returned is finished -/
 
-theorem returned_stays (c : Nat) : ∀ (evs : List (Ev κ)) (o o' : OState κ) (cl : OCaller κ),
-    Obs.run o evs = some o' → o.callers[c]? = some cl → cl.pc = .returned →
-    ∀ e ∈ evs, (∀ ids a, e ≠ Ev.exec c ids a) ∧ (∀ out, e ≠ Ev.ret c out)
+/-- an event that is neither a frame nor a return of call c leaves c's record alone -/
+theorem step_keeps_caller {o o1 : OState κ} {x : Ev κ} {c : Nat} {cl : OCaller κ}
+    (hs : Obs.step o x = some o1) (hc : o.callers[c]? = some cl)
+    (h1 : ∀ ids a, x ≠ Ev.exec c ids a) (h2 : ∀ out, x ≠ Ev.ret c out) : o1.callers[c]? = some cl := by
+  have hlt : c < o.callers.length := (List.getElem?_eq_some_iff.1 hc).1
+  cases x with
+  | start c' b es =>
+    simp only [Obs.step] at hs
+    by_cases hh : c' = o.callers.length ∧ es ≠ []
+    · rw [if_pos hh] at hs; injection hs with hs; subst hs
+      simp only []; rw [List.getElem?_append_left hlt]; exact hc
+    · rw [if_neg hh] at hs; cases hs
+  | prep f k r =>
+    simp only [Obs.step] at hs
+    by_cases hh : 0 < o.credit k ∧ o.callers.any (fun cl => (cl.pc.live || cl.pc.gaveUp) && hasKey cl.entries k) = true
+    · rw [if_pos hh] at hs
+      cases hf : o.flights f with
+      | none => simp only [hf] at hs; injection hs with hs; subst hs; exact hc
+      | some fl0 =>
+        simp only [hf] at hs
+        by_cases hk : fl0.key = k ∧ fl0.ans = none
+        · rw [if_pos hk] at hs; injection hs with hs; subst hs; exact hc
+        · rw [if_neg hk] at hs; cases hs
+    · rw [if_neg hh] at hs; cases hs
+  | rm k f =>
+    simp only [Obs.step] at hs
+    by_cases hj : o.strict = true ∧ justified o k f = false
+    · rw [if_pos hj] at hs; cases hs
+    rw [if_neg hj] at hs
+    cases hf : o.flights f with
+    | none => simp only [hf] at hs; injection hs with hs; subst hs; exact hc
+    | some fl0 =>
+      simp only [hf] at hs
+      by_cases hk : fl0.key = k ∧ fl0.removed = false
+      · rw [if_pos hk] at hs; injection hs with hs; subst hs; exact hc
+      · rw [if_neg hk] at hs; cases hs
+  | exec c' ids a =>
+    have hne : c' ≠ c := by intro e; subst e; exact h1 ids a rfl
+    simp only [Obs.step] at hs
+    cases hc' : o.callers[c']? with
+    | none => simp [hc'] at hs
+    | some cl' =>
+      simp only [hc'] at hs
+      by_cases hk : cl'.pc.live = true ∧ okEntries o cl'.banned cl'.entries ids = true
+      · rw [if_pos hk] at hs; injection hs with hs; subst hs
+        simp only []; rw [List.getElem?_set_ne hne]; exact hc
+      · rw [if_neg hk] at hs
+        by_cases hk2 : cl'.pc = .abandoned true ∧ okEntries o cl'.banned cl'.entries ids = true
+        · rw [if_pos hk2] at hs; injection hs with hs; subst hs
+          simp only []; rw [List.getElem?_set_ne hne]; exact hc
+        · rw [if_neg hk2] at hs; cases hs
+  | ret c' out =>
+    have hne : c' ≠ c := by intro e; subst e; exact h2 out rfl
+    have hset : ∀ (cl' : OCaller κ) (pc : OPC), (setPc o c' cl' pc).callers[c]? = some cl := by
+      intro cl' pc; unfold setPc; simp only []; rw [List.getElem?_set_ne hne]; exact hc
+    simp only [Obs.step] at hs
+    cases hc' : o.callers[c']? with
+    | none => simp [hc'] at hs
+    | some cl' =>
+      simp only [hc'] at hs
+      cases out with
+      | ok =>
+        simp only [] at hs
+        by_cases hp : cl'.pc = .awaiting .ok
+        · rw [if_pos hp] at hs; injection hs with hs; subst hs; exact hset _ _
+        · rw [if_neg hp] at hs; cases hs
+      | execErr =>
+        simp only [] at hs
+        by_cases hp : cl'.pc = .awaiting .err
+        · rw [if_pos hp] at hs; injection hs with hs; subst hs; exact hset _ _
+        · rw [if_neg hp] at hs; cases hs
+      | prepErr f =>
+        simp only [] at hs
+        by_cases hp : cl'.pc.live = true ∧ cl'.banned f = false
+        · rw [if_pos hp] at hs
+          cases hf : o.flights f with
+          | none => simp [hf] at hs
+          | some fl =>
+            simp only [hf] at hs
+            by_cases hq : hasKey cl'.entries fl.key = true ∧ fl.ans = some none ∧ fl.removed = true
+            · rw [if_pos hq] at hs; injection hs with hs; subst hs; exact hset _ _
+            · rw [if_neg hq] at hs; cases hs
+        · rw [if_neg hp] at hs; cases hs
+      | countErr =>
+        simp only [] at hs
+        by_cases hp : cl'.pc.live = true ∧ countMismatch o cl' = true
+        · rw [if_pos hp] at hs; injection hs with hs; subst hs; exact hset _ _
+        · rw [if_neg hp] at hs; cases hs
+      | ctxErr =>
+        simp only [] at hs
+        by_cases hp : o.cancelled c' = true ∧ cl'.pc.running = true
+        · rw [if_pos hp] at hs; injection hs with hs; subst hs; exact hset _ _
+        · rw [if_neg hp] at hs; cases hs
+  | crash => simp [Obs.step] at hs
+  | hang _ => simp [Obs.step] at hs
+  | cancel c' =>
+    simp only [Obs.step] at hs
+    by_cases hh : c' < o.callers.length
+    · rw [if_pos hh] at hs; injection hs with hs; subst hs; exact hc
+    · rw [if_neg hh] at hs; cases hs
+
+omit [DecidableEq κ] in
+theorem live_running {pc : OPC} (h : pc.live = true) : pc.running = true := by
+  cases pc with
+  | active => rfl
+  | awaiting a => rfl
+  | returned => simp [OPC.live] at h
+  | abandoned l => simp [OPC.live] at h
+
+/-- one event in a state where call c has finished (returned a result or its context error): it is not a return of
+    c; it is not a frame of c unless c gave up with a frame still on its way, and after that frame none is -/
+theorem finished_step {o o1 : OState κ} {x : Ev κ} {c : Nat} {cl : OCaller κ}
+    (hs : Obs.step o x = some o1) (hc : o.callers[c]? = some cl) (hp : cl.pc.running = false) :
+    (∀ out, x ≠ Ev.ret c out) ∧ (cl.pc ≠ .abandoned true → ∀ ids a, x ≠ Ev.exec c ids a) ∧
+    ∃ cl1, o1.callers[c]? = some cl1 ∧ cl1.pc.running = false ∧
+      (cl.pc ≠ .abandoned true → cl1.pc ≠ .abandoned true) ∧ ((∃ ids a, x = Ev.exec c ids a) → cl1.pc ≠ .abandoned true) := by
+  have hlt : c < o.callers.length := (List.getElem?_eq_some_iff.1 hc).1
+  have hnl : cl.pc.live ≠ true := fun hl => by rw [live_running hl] at hp; cases hp
+  have hx1 : ∀ out, x ≠ Ev.ret c out := by
+    intro out hx; subst hx
+    simp only [Obs.step, hc] at hs
+    cases out with
+    | ok =>
+      simp only [] at hs
+      by_cases hq : cl.pc = .awaiting .ok
+      · rw [hq] at hp; cases hp
+      · rw [if_neg hq] at hs; cases hs
+    | execErr =>
+      simp only [] at hs
+      by_cases hq : cl.pc = .awaiting .err
+      · rw [hq] at hp; cases hp
+      · rw [if_neg hq] at hs; cases hs
+    | prepErr f =>
+      simp only [] at hs
+      rw [if_neg (fun hq => hnl hq.1)] at hs; cases hs
+    | countErr =>
+      simp only [] at hs
+      rw [if_neg (fun hq => hnl hq.1)] at hs; cases hs
+    | ctxErr =>
+      simp only [] at hs
+      rw [if_neg (fun hq => by rw [hq.2] at hp; cases hp)] at hs; cases hs
+  have hx2 : cl.pc ≠ .abandoned true → ∀ ids a, x ≠ Ev.exec c ids a := by
+    intro hna ids a hx; subst hx
+    simp only [Obs.step, hc] at hs
+    rw [if_neg (fun hq => hnl hq.1), if_neg (fun hq => hna hq.1)] at hs
+    cases hs
+  refine ⟨hx1, hx2, ?_⟩
+  by_cases hex : ∃ ids a, x = Ev.exec c ids a
+  · obtain ⟨ids, a, hx⟩ := hex; subst hx
+    simp only [Obs.step, hc] at hs
+    rw [if_neg (fun hq => hnl hq.1)] at hs
+    by_cases hk2 : cl.pc = .abandoned true ∧ okEntries o cl.banned cl.entries ids = true
+    · rw [if_pos hk2] at hs; injection hs with hs; subst hs
+      refine ⟨{ cl with pc := .abandoned false, banned := removedNow o }, ?_, rfl, fun _ => by simp, fun _ => by simp⟩
+      simp [hlt]
+    · rw [if_neg hk2] at hs; cases hs
+  · exact ⟨cl, step_keeps_caller hs hc (fun ids a hx => hex ⟨ids, a, hx⟩) hx1, hp, id, fun h => absurd h hex⟩
+
+/-- a call that has returned (a result, or its context error) never returns again, and the server receives no
+    further frame of it — except the one frame that a caller which gave up on its context had just written -/
+theorem finished_stays (c : Nat) : ∀ (evs : List (Ev κ)) (o o' : OState κ) (cl : OCaller κ),
+    Obs.run o evs = some o' → o.callers[c]? = some cl → cl.pc.running = false →
+    ∀ e ∈ evs, (∀ out, e ≠ Ev.ret c out) ∧ (cl.pc ≠ .abandoned true → ∀ ids a, e ≠ Ev.exec c ids a)
   | [], _, _, _, _, _, _ => by intro e he; simp at he
   | x :: evs, o, o', cl, h, hc, hp => by
     simp only [Obs.run] at h
@@ -503,81 +815,38 @@ theorem returned_stays (c : Nat) : ∀ (evs : List (Ev κ)) (o o' : OState κ) (
     | none => simp [hs] at h
     | some o1 =>
       simp only [hs] at h
-      have hx : (∀ ids a, x ≠ Ev.exec c ids a) ∧ (∀ out, x ≠ Ev.ret c out) := by
-        constructor
-        · intro ids a hx; subst hx
-          simp only [Obs.step, hc] at hs
-          have : ¬ (cl.pc.live = true ∧ okEntries o cl.banned cl.entries ids = true) := by
-            intro hh; rw [hp] at hh; simp [OPC.live] at hh
-          rw [if_neg this] at hs; cases hs
-        · intro out hx; subst hx
-          simp only [Obs.step, hc] at hs
-          cases out <;> simp [hp, OPC.live] at hs
-      -- the record of c is still there, still returned
-      have hkeep : ∃ cl1, o1.callers[c]? = some cl1 ∧ cl1.pc = .returned := by
-        have hlt : c < o.callers.length := (List.getElem?_eq_some_iff.1 hc).1
-        cases x with
-        | start c' b es =>
-          simp only [Obs.step] at hs
-          by_cases hh : c' = o.callers.length ∧ es ≠ []
-          · rw [if_pos hh] at hs; injection hs with hs; subst hs
-            exact ⟨cl, by simp only []; rw [List.getElem?_append_left hlt]; exact hc, hp⟩
-          · rw [if_neg hh] at hs; cases hs
-        | prep f k r =>
-          simp only [Obs.step] at hs
-          split at hs
-          · split at hs
-            · injection hs with hs; subst hs; exact ⟨cl, hc, hp⟩
-            · split at hs
-              · injection hs with hs; subst hs; exact ⟨cl, hc, hp⟩
-              · cases hs
-          · cases hs
-        | rm k f =>
-          simp only [Obs.step] at hs
-          split at hs
-          · injection hs with hs; subst hs; exact ⟨cl, hc, hp⟩
-          · split at hs
-            · injection hs with hs; subst hs; exact ⟨cl, hc, hp⟩
-            · cases hs
-        | exec c' ids a =>
-          have hne : c' ≠ c := by intro e; subst e; exact hx.1 ids a rfl
-          simp only [Obs.step] at hs
-          split at hs
-          · cases hs
-          · split at hs
-            · injection hs with hs; subst hs
-              exact ⟨cl, by simp only []; rw [List.getElem?_set_ne hne]; exact hc, hp⟩
-            · cases hs
-        | ret c' out =>
-          have hne : c' ≠ c := by intro e; subst e; exact hx.2 out rfl
-          have hset : ∀ (cl' : OCaller κ) (pc : OPC), (setPc o c' cl' pc).callers[c]? = some cl := by
-            intro cl' pc; unfold setPc; simp only []; rw [List.getElem?_set_ne hne]; exact hc
-          simp only [Obs.step] at hs
-          split at hs
-          · cases hs
-          · split at hs
-            · split at hs
-              · injection hs with hs; subst hs; exact ⟨cl, hset _ _, hp⟩
-              · cases hs
-            · split at hs
-              · injection hs with hs; subst hs; exact ⟨cl, hset _ _, hp⟩
-              · cases hs
-            · split at hs
-              · split at hs
-                · split at hs
-                  · injection hs with hs; subst hs; exact ⟨cl, hset _ _, hp⟩
-                  · cases hs
-                · cases hs
-              · cases hs
-            · split at hs
-              · injection hs with hs; subst hs; exact ⟨cl, hset _ _, hp⟩
-              · cases hs
-        | crash => simp [Obs.step] at hs
-        | hang _ => simp [Obs.step] at hs
-      obtain ⟨cl1, g1, g2⟩ := hkeep
+      obtain ⟨hx1, hx2, cl1, g1, g2, g3, _⟩ := finished_step hs hc hp
       intro e he
       rcases List.mem_cons.1 he with he | he
-      · subst he; exact hx
-      · exact returned_stays c evs o1 o' cl1 h g1 g2 e he
+      · subst he; exact ⟨hx1, hx2⟩
+      · have := finished_stays c evs o1 o' cl1 h g1 g2 e he
+        exact ⟨this.1, fun hna => this.2 (g3 hna)⟩
+
+/-- … and of that late frame there is at most one -/
+theorem late_frame_once (c : Nat) : ∀ (evs : List (Ev κ)) (o o' : OState κ) (cl : OCaller κ),
+    Obs.run o evs = some o' → o.callers[c]? = some cl → cl.pc.running = false →
+    ∀ (p1 p2 : List (Ev κ)) (ids : List Id) (a : XAns), evs = p1 ++ Ev.exec c ids a :: p2 →
+      ∀ e ∈ p2, ∀ ids' a', e ≠ Ev.exec c ids' a'
+  | [], _, _, _, _, _, _ => by intro p1 p2 ids a h; cases p1 <;> simp at h
+  | x :: evs, o, o', cl, h, hc, hp => by
+    simp only [Obs.run] at h
+    cases hs : Obs.step o x with
+    | none => simp [hs] at h
+    | some o1 =>
+      simp only [hs] at h
+      obtain ⟨_, _, cl1, g1, g2, _, g4⟩ := finished_step hs hc hp
+      intro p1 p2 ids a hsplit
+      cases p1 with
+      | nil =>
+        simp only [List.nil_append] at hsplit
+        injection hsplit with hx hrest
+        subst hx; subst hrest
+        have hna := g4 ⟨ids, a, rfl⟩
+        intro e he ids' a'
+        exact (finished_stays c evs o1 o' cl1 h g1 g2 e he).2 hna ids' a'
+      | cons y p1 =>
+        simp only [List.cons_append] at hsplit
+        injection hsplit with _ hrest
+        exact late_frame_once c evs o1 o' cl1 h g1 g2 p1 p2 ids a hrest
 
 end C14Obs
